@@ -1071,7 +1071,8 @@ def one_load(name, canon, doc, unpack, mode, home, fake_home, foreign=None, prev
                 for part in (first if isinstance(first, tuple) else (first,)):
                     if isinstance(part, np.ndarray) and part.flags.writeable:
                         part[...] = -7.0
-            out = twd.load_dataset(name, unpack_dataset_columns=unpack)
+            # (the flag is a positional-or-keyword parameter: every other name passes it positionally)
+            out = twd.load_dataset(name, unpack) if len(name) % 2 == 0 else twd.load_dataset(name, unpack_dataset_columns=unpack)
         outcome = "ok"
     except BaseException as ex:  # noqa
         out, outcome = None, classify_exc(ex)
